@@ -113,6 +113,15 @@ M = [
  ('m_c25_held_delta', 'C25', 'cylc/flow/data_store_mgr.py',
   "        for field in ('is_held', 'is_queued', 'is_runahead'):\n            val = getattr(itask.state, field)",
   "        for field in ('is_queued', 'is_runahead'):\n            val = getattr(itask.state, field)"),
+ ('m_c29_implied', 'C29', 'cylc/flow/task_outputs.py',
+  "        elif message == TASK_OUTPUT_STARTED:\n            # It must have submitted.\n            implied = [TASK_OUTPUT_SUBMITTED]",
+  "        elif message == TASK_OUTPUT_STARTED:\n            # It must have submitted.\n            implied = []"),
+ ('m_c29_active', 'C29', 'cylc/flow/task_state.py',
+  "        if forced and req in [TASK_STATUS_SUBMITTED, TASK_STATUS_RUNNING]:",
+  "        if forced and req in [TASK_STATUS_SUBMITTED]:"),
+ ('m_c29_setall', 'C29', 'cylc/flow/task_proxy.py',
+  "                if not set_all and pre not in prereqs:\n                    continue",
+  "                if not set_all and pre.task not in {p.task for p in prereqs}:\n                    continue"),
  ('m_c09_started_back', 'C09', 'cylc/flow/task_events_mgr.py',
   "            if flag == self.FLAG_RECEIVED and itask.state.is_gt(\n                TASK_STATUS_RUNNING\n            ):\n                # Already running.\n                return True",
   "            if False:\n                # Already running.\n                return True"),
